@@ -26,3 +26,10 @@ Extraction "model.ml" fstep fcheck finit calc_partial_start calc_target_top_leve
    its own: its names (run, init, step, file, RFull ...) would clash with the flat model. *)
 From Moss Require StoreOps.
 Extraction "opsmodel.ml" StoreOps.predict StoreOps.step_ix.
+
+(* The fine-grained wait/notify model (Sync2.v) and its lock-step driver (Sync2Run.v), for
+   syncrun: a file of its own for the same reason (step, run, init, state ...). *)
+From Moss Require Sync2 Sync2Run.
+Extraction "sync2model.ml" Sync2Run.apply_label Sync2Run.start Sync2Run.cfg_sync Sync2Run.quiescent
+  Sync2Run.obs_top Sync2Run.obs_blocked Sync2Run.obs_ok Sync2Run.obs_closedret Sync2Run.obs_syncdone
+  Sync2Run.obs_syncret Sync2Run.obs_closed Sync2Run.obs_mgate Sync2Run.obs_asleep.
